@@ -296,7 +296,7 @@ def _load_table(ctx, repo):
     fn = msg.methods.get("_load")
     ctx.need(fn, "DiameterMessage._load")
     construct = f"{msg.qual}._load"
-    loops = [s for s in fn.body if isinstance(s, ast.For)]
+    loops = [s for s in walk_no_nested(fn) if isinstance(s, ast.For)]
     loop = None
     for s in loops:
         if isinstance(s.target, ast.Tuple) and len(s.target.elts) == 2:
@@ -305,59 +305,46 @@ def _load_table(ctx, repo):
         ctx.undecided("R-DOM/_load", construct, msg.where(fn), "no `for name, value in ...` loop found", key="loop")
         return
     nname, vname = [e.id for e in loop.target.elts]
-
-    def atom_factory(M, N, O):
-        def atom(e):
-            t = ast.unparse(e)
-            if t == f"{nname} in self.mandatory":
-                return M
-            if t == f"{nname} not in self.mandatory":
-                return not M
-            if t == f"{nname} in self.optionals":
-                return O
-            if t == f"{nname} not in self.optionals":
-                return not O
-            if t == f"{vname} is None":
-                return N
-            if t == f"{vname} is not None":
-                return not N
-            return None
-        return atom
-
+    # one iteration on terms (bsa.sym) under each assumption about (name in mandatory, name in optionals, value is None)
+    from .. import sym
+    NAME, VAL, SELF = sym.S(nname), sym.S(vname), ("name", "self")
     for M in (True, False):
         for O in (True, False):
             for N in (True, False):
-                atom = atom_factory(M, N, O)
+                def hook(t, M=M, O=O, N=N):
+                    if t == ("cmp", "In", NAME, ("attr", SELF, "mandatory")):
+                        return M
+                    if t == ("cmp", "In", NAME, ("attr", SELF, "optionals")):
+                        return O
+                    if t == ("cmp", "Is", VAL, None):
+                        return N
+                    if t == VAL and N:
+                        return None
+                    return None
                 try:
-                    ps = list(enum_paths(loop.body, decide=lambda t, ev: eval_bool(t, atom)))
-                except Exception as e:   # noqa
-                    ctx.undecided("R-DOM/_load", construct, msg.where(loop), f"path enumeration failed: {e}", key="paths")
+                    ps = sym.Interp(hook=hook, log_calls=True).loop_body(loop, {nname: NAME, vname: VAL if not N else None})
+                except sym.TooMany as e:
+                    ctx.undecided("R-DOM/_load", construct, msg.where(loop), "too many paths", key="paths")
                     return
                 case = f"mandatory={M},optional={O},None={N}"
                 for p in ps:
-                    appends = []
-                    for c, _ in p.calls():
-                        if call_name(c) == "self.append" and c.args:
-                            appends.append(c.args[0])
-                    wraps = {}
-                    for s in p.stmts():
-                        if isinstance(s, ast.Assign) and len(s.targets) == 1 and isinstance(s.targets[0], ast.Name) \
-                                and isinstance(s.value, ast.Call):
-                            wraps[s.targets[0].id] = ast.unparse(s.value)
+                    appends = [e[1][2][0] for e in p.effects if e[0] == "ecall" and isinstance(e[1], tuple) and e[1][0] == "call"
+                               and e[1][1] == ("attr", SELF, "append") and len(e[1][2]) == 1]
                     raised = p.term == "raise"
-                    rname = ast.unparse(p.term_node.exc.func) if raised and isinstance(p.term_node.exc, ast.Call) else None
-                    app_txt = [wraps.get(a.id, a.id) if isinstance(a, ast.Name) else ast.unparse(a) for a in appends]
+                    rname = sym.show(p.value).split("(")[0] if raised else None
+                    app_txt = [sym.show(a) for a in appends]
+                    V_ = VAL if not N else None
                     if M and N:
                         ok = raised and rname == "DiameterMessageError" and not appends
                         bad = f"missing mandatory argument is not rejected with DiameterMessageError (path ends {p.term}, appends {app_txt})"
                     elif M and not N:
-                        ok = not raised and app_txt == [f"self.mandatory[{nname}]({vname})"]
+                        ok = not raised and appends == [("call", ("sub", ("attr", SELF, "mandatory"), NAME), (V_,), ())]
                         bad = f"mandatory value must be wrapped by self.mandatory[name] and appended exactly once; got {app_txt}, term {p.term}"
                     elif O and not N:
-                        ok = not raised and app_txt == [f"self.optionals[{nname}]({vname})"]
+                        ok = not raised and appends == [("call", ("sub", ("attr", SELF, "optionals"), NAME), (V_,), ())]
                         bad = f"optional value must be wrapped by self.optionals[name] and appended exactly once; got {app_txt}, term {p.term}"
                     elif not N:
-                        ok = (raised and rname == "DiameterMessageError" and not appends) or app_txt == [vname]
+                        ok = (raised and rname == "DiameterMessageError" and not appends) or (not raised and appends == [V_])
                         bad = f"extra keyword AVP must be appended as given exactly once or rejected; got {app_txt}, term {p.term}"
                     else:
                         ok = not raised and not appends
@@ -368,7 +355,7 @@ def _load_table(ctx, repo):
     it = ast.unparse(loop.iter)
     src_ok = it.endswith(".items()") or any(
         isinstance(s, ast.Assign) and isinstance(s.targets[0], ast.Name) and s.targets[0].id == it
-        and ast.unparse(s.value).endswith(".items()") for s in fn.body)
+        and ast.unparse(s.value).endswith(".items()") for s in walk_no_nested(fn))
     ctx.decide(src_ok, "R-FLOW/_load-order", construct, msg.where(loop), "iterates values.items() in mapping order",
                f"_load iterates `{it}` which is not the items() view of the values mapping (declaration order lost)",
                key="iter")
